@@ -28,6 +28,7 @@ use oq3_syntax::ast as synast; // Syntactic AST
 
 use crate::with_scope;
 
+#[allow(unused_imports)]
 use crate::utils::type_name_of; // for debugging
 
 // traits
@@ -1254,7 +1255,16 @@ fn designator_to_asg(
     match get_ast_designator_expression(designator) {
         Some(synast::Expr::Literal(ref literal)) => {
             match literal.kind() {
-                synast::LiteralKind::IntNumber(int_num) => Some(int_num.value().unwrap() as u32),
+                synast::LiteralKind::IntNumber(int_num) => {
+                    // The width must fit in 32 bits. Do not truncate it silently.
+                    match int_num.value().and_then(|value| u32::try_from(value).ok()) {
+                        Some(width) => Some(width),
+                        None => {
+                            context.insert_error(InvalidDesignatorError, literal);
+                            None
+                        }
+                    }
+                }
                 _ => {
                     // FIXME: This error should be done when validating syntax. Before the semantic analysis
                     context.insert_error(ConstIntegerError, literal);
@@ -1265,23 +1275,28 @@ fn designator_to_asg(
         }
         Some(synast::Expr::Identifier(identifier)) => {
             let (sym, typ) = lookup_identifier(&identifier, context);
-            if typ.is_const() {
-                let const_value = context.get_const_value(sym.unwrap());
-                let width = match u32::try_from(const_value.unwrap()) {
-                    Ok(width) => width,
-                    Err(_) => {
-                        context.insert_error(InvalidDesignatorError, &identifier);
-                        // It's not clear what value to substitute for the width if we don't have a valid one.
-                        // We choose zero.
-                        0
-                    }
-                };
-                Some(width)
-            } else {
-                None
+            // If the lookup failed, `UndefVarError` has already been logged.
+            let sym = sym.ok()?;
+            if !typ.is_const() {
+                // The width of a type must be a compile-time constant.
+                context.insert_error(ConstIntegerError, &identifier);
+                return None;
             }
+            let width = context
+                .get_const_value(sym)
+                .and_then(|const_value| u32::try_from(const_value).ok());
+            if width.is_none() {
+                // Either no constant value is known for this symbol (eg. it is not a constant
+                // integer), or the value is not a valid width.
+                context.insert_error(InvalidDesignatorError, &identifier);
+            }
+            width
         }
-        Some(expr) => panic!("Unsupported designator type: {:?}", type_name_of(expr)),
+        Some(expr) => {
+            // Constant expressions other than literals and identifiers are not evaluated (yet).
+            context.insert_error(NotImplementedError, &expr);
+            None
+        }
         None => None,
     }
 }
